@@ -41,6 +41,17 @@ static void prf(void)
             memset(o, 0xAA, ol);
             { ascon_prf_state_t s; ascon_prf_fixed_init(&s, key, ol); ascon_prf_absorb(&s, HX_OPT(msg, il), il); ascon_prf_squeeze(&s, o, ol); ascon_prf_free(&s); }
             cmpo("prf:fixed-incremental", o, e2, ol, "inlen/outlen", il, ol, 0, 0);
+            if (ol == 0 || ol == 9 || ol == 16 || ol == maxout) {
+                /* the same through reinit / fixed_reinit on an object with a past (other key, pending input, already squeezed, other declared length) */
+                uint8_t k2[16], t[24]; for (int i = 0; i < 16; i++) k2[i] = (uint8_t)(key[i] ^ 0x5c); ascon_prf_state_t s; int hist = (il + ol) % 4;
+                memset(o, 0xAA, ol);
+                if (hist == 0) ascon_prf_init(&s, k2); else if (hist == 1) { ascon_prf_init(&s, k2); ascon_prf_absorb(&s, msg, 32); } else if (hist == 2) { ascon_prf_fixed_init(&s, k2, 20); ascon_prf_absorb(&s, msg, 5); ascon_prf_squeeze(&s, t, 20); } else { ascon_prf_init(&s, key); ascon_prf_absorb(&s, msg, 3); }
+                ascon_prf_reinit(&s, key); ascon_prf_absorb(&s, HX_OPT(msg, il), il); ascon_prf_squeeze(&s, o, ol);
+                cmpo("prf:reinit", o, exp, ol, "inlen/outlen/history", il, ol, hist, 0);
+                memset(o, 0xAA, ol);
+                ascon_prf_fixed_reinit(&s, key, ol); ascon_prf_absorb(&s, HX_OPT(msg, il), il); ascon_prf_squeeze(&s, o, ol); ascon_prf_free(&s);
+                cmpo("prf:fixed-reinit", o, e2, ol, "inlen/outlen/history", il, ol, hist, 0);
+            }
             free(e2); hx_free(o); hx_stat("nontrivial", 1);
         }
     }
@@ -143,6 +154,11 @@ static void hmac(void)
               if (A) { ascon_hmaca_state_t s; ascon_hmaca_init(&s, key, kl); ascon_hmaca_update(&s, msg, i1); ascon_hmaca_update(&s, msg + i1, 0); ascon_hmaca_update(&s, msg + i1, ml - i1); ascon_hmaca_finalize(&s, key, kl, o); ascon_hmaca_free(&s); }
               else { ascon_hmac_state_t s; ascon_hmac_init(&s, key, kl); ascon_hmac_update(&s, msg, i1); ascon_hmac_update(&s, msg + i1, 0); ascon_hmac_update(&s, msg + i1, ml - i1); ascon_hmac_finalize(&s, key, kl, o); ascon_hmac_free(&s); }
               cmpo(A ? "hmaca:incremental-chunked" : "hmac:incremental-chunked", o, e, 32, "keylen/msglen/split", kl, ml, i1, 0); }
+            {   /* reinit of an object keyed with another key of another length class, with pending input */
+                uint8_t k2[80]; for (int i = 0; i < 80; i++) k2[i] = (uint8_t)(0x3c + i); size_t k2l = (size_t)((kl + ml) % 3 == 0 ? 5 : (kl + ml) % 3 == 1 ? 64 : 70); memset(o, 0xAA, 32);
+                if (A) { ascon_hmaca_state_t s; ascon_hmaca_init(&s, k2, k2l); ascon_hmaca_update(&s, msg, 13); ascon_hmaca_reinit(&s, key, kl); ascon_hmaca_update(&s, msg, ml); ascon_hmaca_finalize(&s, key, kl, o); ascon_hmaca_free(&s); }
+                else { ascon_hmac_state_t s; ascon_hmac_init(&s, k2, k2l); ascon_hmac_update(&s, msg, 13); ascon_hmac_reinit(&s, key, kl); ascon_hmac_update(&s, msg, ml); ascon_hmac_finalize(&s, key, kl, o); ascon_hmac_free(&s); }
+                cmpo(A ? "hmaca:reinit" : "hmac:reinit", o, e, 32, "keylen/msglen/previous-keylen", kl, ml, k2l, 0); }
             hx_free(o); hx_stat("nontrivial", 1);
         }
     }
@@ -170,6 +186,11 @@ static void kmac(void)
                     if (A) { ascon_kmaca_state_t s; ascon_kmaca_init(&s, key, kl, cust, cl, ol); ascon_kmaca_absorb(&s, msg, ml); ascon_kmaca_squeeze(&s, o, ol); ascon_kmaca_free(&s); }
                     else { ascon_kmac_state_t s; ascon_kmac_init(&s, key, kl, cust, cl, ol); ascon_kmac_absorb(&s, msg, ml); ascon_kmac_squeeze(&s, o, ol); ascon_kmac_free(&s); }
                     cmpo(A ? "kmaca:incremental" : "kmac:incremental", o, e, ol, "key/msg/custom/out", kl, ml, cl, ol);
+                    {   /* reinit of an object used with key and custom exchanged and another output length (the default 32 and others) */
+                        size_t ol2 = (kl + ml + cl) % 2 ? 32 : 17; uint8_t t[8]; memset(o, 0xAA, ol);
+                        if (A) { ascon_kmaca_state_t s; ascon_kmaca_init(&s, cust, cl, key, kl, ol2); ascon_kmaca_absorb(&s, msg, 9); if (ml & 1) ascon_kmaca_squeeze(&s, t, 8); ascon_kmaca_reinit(&s, key, kl, cust, cl, ol); ascon_kmaca_absorb(&s, msg, ml); ascon_kmaca_squeeze(&s, o, ol); ascon_kmaca_free(&s); }
+                        else { ascon_kmac_state_t s; ascon_kmac_init(&s, cust, cl, key, kl, ol2); ascon_kmac_absorb(&s, msg, 9); if (ml & 1) ascon_kmac_squeeze(&s, t, 8); ascon_kmac_reinit(&s, key, kl, cust, cl, ol); ascon_kmac_absorb(&s, msg, ml); ascon_kmac_squeeze(&s, o, ol); ascon_kmac_free(&s); }
+                        cmpo(A ? "kmaca:reinit" : "kmac:reinit", o, e, ol, "key/msg/custom/out", kl, ml, cl, ol); }
                     hx_free(o); hx_stat("nontrivial", 1);
                 }
     hx_sample("kmac a=%d: key 0..%d x msg 0..%d x custom 0..%d x outlen {0,1,7,8,9,16,31,32,33,40,64}", A, maxk, maxm, maxc);
